@@ -284,23 +284,37 @@ theorem other_aliases_no_sign :
 
 /-- **the alias loop bodies are the translated source**: one iteration of the key/value loop of each of the three
 implementations — translated from the source by evaluating the body for every symbol, every alias and a generic
-other key, for `None` and for a number — equals the step function of the hand model the `defocus_alias_*`
-theorems are stated for, for EVERY key, value and accumulated dict.  (The plumbing around the loops — key
-validation, recursion into nested dicts, max-order zero fill, float32 conversion — stays hand-modelled.) -/
-theorem alias_steps_are_translated (out : List (String × ℝ)) (k : String) (v : Option ℝ) :
-    standardize_aberration_coefs_step out k v = standardizeStep POLAR_SYMBOLS POLAR_ALIASES out k v ∧
+other key, for `None` and for a number IN THE CALLER'S TYPE (`TVal`: exact, unsigned-b-bit or signed-b-bit, so that
+the order of `float(·)` and unary minus is part of the translation) — equals the step function of the hand model
+the `defocus_alias_*` theorems are stated for, applied to the value's real number `float(v)`, for EVERY key, value,
+numeric form and accumulated dict.  (The plumbing around the loops — key validation, recursion into nested dicts,
+max-order zero fill, float32 conversion — stays hand-modelled.) -/
+theorem alias_steps_are_translated (out : List (String × ℝ)) (k : String) (v : Option (TVal ℝ)) :
+    standardize_aberration_coefs_step out k v
+      = standardizeStep POLAR_SYMBOLS POLAR_ALIASES out k (v.map TVal.toFloat) ∧
     validate_aberration_coefficients_step out k v
-      = .ok (processStep VALIDATORS_POLAR_SYMBOLS VALIDATORS_POLAR_ALIASES out k v) ∧
-    probe_params_setter_step out k v = .ok (processStep POLAR_SYMBOLS POLAR_ALIASES out k v) :=
+      = .ok (processStep VALIDATORS_POLAR_SYMBOLS VALIDATORS_POLAR_ALIASES out k (v.map TVal.toFloat)) ∧
+    probe_params_setter_step out k v
+      = .ok (processStep POLAR_SYMBOLS POLAR_ALIASES out k (v.map TVal.toFloat)) :=
   ⟨standardize_step_translated out k v, validate_step_translated out k v, probe_params_step_translated out k v⟩
 
-/-- **the sign of `defocus` in the source itself**: in all three translated loop bodies `defocus = x` stores
-C10 = −x. -/
-theorem defocus_sign_in_source (out : List (String × ℝ)) (x : ℝ) :
-    standardize_aberration_coefs_step out "defocus" (some x) = .ok (dset out "C10" (-x)) ∧
-    validate_aberration_coefficients_step out "defocus" (some x) = .ok (dset out "C10" (-x)) ∧
-    probe_params_setter_step out "defocus" (some x) = .ok (dset out "C10" (-x)) :=
+/-- **the sign of `defocus` in the source itself, as a real number, for every numeric form**: in all three
+translated loop bodies `defocus = v` stores C10 = −float(v) — also when `v` is an unsigned (or minimal signed)
+NumPy/torch integer, where negating BEFORE the conversion (`float(-v)`) would wrap (see the example below). -/
+theorem defocus_sign_in_source (out : List (String × ℝ)) (v : TVal ℝ) :
+    standardize_aberration_coefs_step out "defocus" (some v) = .ok (dset out "C10" (-v.x)) ∧
+    validate_aberration_coefficients_step out "defocus" (some v) = .ok (dset out "C10" (-v.x)) ∧
+    probe_params_setter_step out "defocus" (some v) = .ok (dset out "C10" (-v.x)) :=
   ⟨rfl, rfl, rfl⟩
+
+/-- the distinction is real: negating in the caller's type first is NOT −float(v) for unsigned inputs
+(`float(-np.uint16(300)) = 65236.0`, `float(-torch.uint8 200) = 56.0`), nor for the minimal signed value -/
+theorem negate_before_convert_counterexample :
+    (TVal.neg (⟨300, .unsigned 16⟩ : TVal ℝ)).toFloat = 65236 ∧ (TVal.neg (⟨200, .unsigned 8⟩ : TVal ℝ)).toFloat = 56 ∧
+    (TVal.neg (⟨-128, .signed 8⟩ : TVal ℝ)).toFloat = -128 ∧ (TVal.neg (⟨300, .exact⟩ : TVal ℝ)).toFloat = -300 := by
+  simp only [TVal.neg, TVal.toFloat, TVal.eqb, Num.leb, NumReal.zero_eq, NumReal.ofNat_eq, NumReal.sub_eq,
+    NumReal.neg_eq]
+  norm_num
 
 /-! ### fitting defocus, astigmatism and rotation from shifts -/
 
